@@ -276,6 +276,30 @@ fn enabled(m: &Model, p: &Profile) -> Vec<Op> {
 
 fn enabled_full(m: &Model, p: &Profile) -> Vec<Op> {
     let mut ops = vec![];
+    // kind sweep (C01 family): every secret kind is created once at depth 1
+    // and then only that secret is operated on (update value, update meta,
+    // move, archive, delete), so that all 15 kinds x {create, update, move}
+    // x reload are covered without multiplying the whole alphabet
+    if p.maint_words == 0 {
+        if let Some((si, _)) = m.secrets.iter().enumerate().find(|(_, s)| s.alive && !p.kinds.contains(&s.kind)) {
+            let s = &m.secrets[si];
+            ops.push(Op::Update { s: si, with_value: true });
+            ops.push(Op::Update { s: si, with_value: false });
+            ops.push(Op::Delete { s: si });
+            if m.folders[s.folder].role != "archive" {
+                ops.push(Op::Archive { s: si });
+                ops.push(Op::Move { s: si, to: if s.folder == 0 { 2 } else { 0 } });
+            }
+            return ops;
+        }
+        if m.edits == 0 {
+            for k in gen::KINDS {
+                if !p.kinds.iter().any(|x| x == k) {
+                    ops.push(Op::Create { f: 0, kind: k.to_string(), variant: 1 });
+                }
+            }
+        }
+    }
     // C12: edits and maintenance operations interleave freely, each kind
     // bounded per path (a key change followed by a folder delete followed
     // by another key change is a path of the search)
